@@ -14,8 +14,13 @@
      read_write/netcdf/netcdfwrite.py  _write_node_coordinates, _write_node_count,
                                        _write_part_node_count, _write_interior_ring
 
-   The model follows the code as REPAIRED by handoff/C14-fix-1..3.diff; the behaviour at the pinned
-   commit is kept as the [..._old] definitions (witnesses in Refuted.v).
+   The model follows the code as REPAIRED by handoff/C14-fix-1..3.diff (in /repo since cf67fd3, 60053d9,
+   70bb63f) and by handoff/C14-fix3-1..3.diff (second pass: sharing of node variables between fields,
+   per-variable compression of node coordinates, registration of the interior ring variable); the
+   behaviour before each repair is kept as [..._old] definitions / boolean switches (witnesses in
+   Refuted.v).  The last two sections model a whole dataset: several data variables naming the
+   same or different containers (NetCDFRead._parse_geometry called once per data variable), and
+   several fields written by one cfdm.write call (_write_node_coordinates and its registry).
    Counts and index values are [nat] (they are lengths / positions), coordinate data and ring flags are [Z].
    Definitions only - no proofs here. *)
 From CfdmV Require Import Common.Base.
@@ -291,3 +296,190 @@ Definition write_old := write_gen write_part_node_count_old.
 (* the container an independent reader sees in a written dataset (node_count is always written) *)
 Definition container_of (w : written) : container :=
   {| g_nc := Some (w_nc w); g_pnc := w_pnc w; g_ring := w_ring w; g_nnodes := length (w_nodes w) |}.
+
+(* ------------------------------------------------------------------------- *)
+(* several data variables and several containers in one dataset (second pass) *)
+(* ------------------------------------------------------------------------- *)
+(* A container as it sits in a dataset: its raw variables, the data of its node coordinate
+   variables, and the netCDF dimensions it uses (instance dimension of node_count, node dimension,
+   part dimension of part_node_count / interior_ring). *)
+Record gcont := {
+  c_g : container;
+  c_datas : list (list Z);
+  c_idim : nat;
+  c_ndim : nat;
+  c_pdim : nat
+}.
+
+(* a data variable: the container its geometry attribute names, and its own dimensions *)
+Record dvar := { d_gid : nat; d_dims : list nat }.
+
+(* the dimension the cells lie on: that of node_count, else the node dimension *)
+Definition cont_celldim (c : gcont) : nat :=
+  match g_nc (c_g c) with Some _ => c_idim c | None => c_ndim c end.
+
+(* NetCDFRead._parse_geometry called for every data variable with a geometry attribute, in order.
+   State: (containers held in read_vars["geometries"], read_vars["variable_geometry"] as an
+   association list parent -> container, most recent first).
+   - container already parsed: record that this parent has it, and return
+     ([record_again] = false is the seeded variant that returns without recording);
+   - otherwise check it (attributes, and that the cell dimension is a dimension of the parent);
+     a container that fails is forgotten, so that it is checked again for the next parent. *)
+Definition parse_step_gen (record_again : bool) (conts : list gcont)
+           (st : list nat * list (nat * nat)) (pv : nat * dvar) : list nat * list (nat * nat) :=
+  let '(parsed, vg) := st in
+  let '(p, d) := pv in
+  let gid := d_gid d in
+  if mem gid parsed then (parsed, if record_again then (p, gid) :: vg else vg)
+  else match nth_error conts gid with
+       | None => st
+       | Some c =>
+           if accepted (c_g c) && mem (cont_celldim c) (d_dims d)
+           then (gid :: parsed, (p, gid) :: vg)
+           else st
+       end.
+
+Definition parse_all_gen (record_again : bool) (conts : list gcont) (dvs : list dvar)
+  : list nat * list (nat * nat) :=
+  fold_left (parse_step_gen record_again conts) (combine (seq 0 (length dvs)) dvs) ([], []).
+
+Definition lookup_geometry (p : nat) (vg : list (nat * nat)) : option nat :=
+  option_map snd (find (fun e => Nat.eqb (fst e) p) vg).
+
+(* which container's count variables uncompress the node coordinate variables of container gid.
+   repaired (handoff/C14-fix3-2.diff): its own.
+   before: read_vars["compression"] is keyed by the node DIMENSION: every parse sets
+   "ragged_contiguous"; a parse with part_node_count then moves it to "ragged_indexed_contiguous";
+   _create_data looks for "ragged_indexed_contiguous" first.  So among the parsed containers on the
+   same node dimension: the last parsed one with a part_node_count if there is one, else the last
+   parsed one.  ([parsed] is most recent first.) *)
+Definition effective_cont_old (conts : list gcont) (parsed : list nat) (gid : nat) : nat :=
+  match nth_error conts gid with
+  | None => gid
+  | Some c =>
+      let same := filter (fun k => match nth_error conts k with
+                                   | Some c' => Nat.eqb (c_ndim c') (c_ndim c)
+                                   | None => false end) parsed in
+      let with_pnc := filter (fun k => match nth_error conts k with
+                                       | Some c' => match g_pnc (c_g c') with Some _ => true | None => false end
+                                       | None => false end) same in
+      match with_pnc, same with
+      | k :: _, _ => k
+      | [], k :: _ => k
+      | [], [] => gid
+      end
+  end.
+
+(* The interior ring array is created while its container is parsed.  It is uncompressed only if
+   its variable is in read_vars["compression"][part dimension]["netCDF_variables"] - or if that set
+   does not exist yet.  Before handoff/C14-fix3-3.diff the variable was added to the set AFTER its
+   array had been created: fine for the first container on a part dimension (no set yet), but the
+   ring variable of a later container on the same part dimension was then presented as it is in
+   the file, 1-d.  ([parsed] is most recent first: the containers parsed before gid follow it.) *)
+Fixpoint parsed_before (gid : nat) (parsed : list nat) : list nat :=
+  match parsed with
+  | [] => []
+  | k :: r => if Nat.eqb k gid then r else parsed_before gid r
+  end.
+
+Definition ring_array_gen (ring_fixed : bool) (conts : list gcont) (parsed : list nat) (gid : nat)
+           (c : gcont) : option arr2 :=
+  let earlier := existsb (fun k => match nth_error conts k with
+                                   | Some c' => Nat.eqb (c_pdim c') (c_pdim c) &&
+                                                match g_ring (c_g c'), g_pnc (c_g c') with
+                                                | Some _, Some _ => true | _, _ => false end
+                                   | None => false end) (parsed_before gid parsed) in
+  if ring_fixed || negb earlier then read_ring (c_g c)
+  else match g_pnc (c_g c), g_ring (c_g c) with
+       | Some _, Some r => Some [map Some r]
+       | _, _ => None
+       end.
+
+(* What one data variable is given: None = no geometry constructs at all; otherwise the bounds of
+   every node coordinate variable of its container, and the interior ring array. *)
+Definition var_cells_gen (own_counts ring_fixed : bool) (conts : list gcont) (parsed : list nat) (gid : nat)
+  : option (list arr3 * option arr2) :=
+  match nth_error conts gid with
+  | None => None
+  | Some c =>
+      let k := if own_counts then gid else effective_cont_old conts parsed gid in
+      match nth_error conts k with
+      | None => None
+      | Some ck => Some (map (read_bounds (c_g ck)) (c_datas c), ring_array_gen ring_fixed conts parsed gid c)
+      end
+  end.
+
+(* Reading the dataset: every data variable in turn.  A variable recorded with a container whose
+   cell dimension it does not span makes the read raise ValueError ("Geometry dimension ... is not
+   in read_vars['ncdim_to_axis']") - possible only through the already-parsed branch, which does
+   not look at the dimensions of the new parent. *)
+Definition read_dataset_gen (record_again own_counts ring_fixed : bool) (conts : list gcont) (dvs : list dvar)
+  : result (list (option (list arr3 * option arr2))) :=
+  let '(parsed, vg) := parse_all_gen record_again conts dvs in
+  let bad := existsb (fun pv : nat * dvar =>
+               let '(p, d) := pv in
+               match lookup_geometry p vg with
+               | Some gid => match nth_error conts gid with
+                             | Some c => negb (mem (cont_celldim c) (d_dims d))
+                             | None => false end
+               | None => false end) (combine (seq 0 (length dvs)) dvs) in
+  if bad then Err ValueErr
+  else Ok (map (fun p => match lookup_geometry p vg with
+                         | Some gid => var_cells_gen own_counts ring_fixed conts parsed gid
+                         | None => None end) (seq 0 (length dvs))).
+
+Definition read_dataset := read_dataset_gen true true true.
+
+(* ------------------------------------------------------------------------- *)
+(* several fields written to one dataset (second pass)                        *)
+(* ------------------------------------------------------------------------- *)
+(* Everything the writer produces for one coordinate is a function of: the flattened node values,
+   the number of nodes in every (cell, part) slot, and the flattened ring flags. *)
+Definition wkey := (list Z * list (list nat) * option (list Z))%type.
+
+Definition key_of (a : arr3) (ring : option arr2) : wkey :=
+  (write_nodes a, map (map count_some) a, option_map write_ring ring).
+
+Definition write_key (k : wkey) : result written :=
+  let '(nodes, counts, wr) := k in
+  let slots := match counts with [] => 0 | c :: _ => length c end in
+  let has_ring := match wr with Some _ => true | None => false end in
+  let pnc := if Nat.eqb slots 1 && negb has_ring then None else Some (nonzero (concat counts)) in
+  let w := {| w_nodes := nodes; w_nc := map sum counts; w_pnc := pnc; w_ring := wr |} in
+  match pnc, wr with
+  | Some p, Some r => if Nat.eqb (length p) (length r) then Ok w else Err ValueErr
+  | _, _ => Ok w
+  end.
+
+Record wfield := { f_a : arr3; f_ring : option arr2; f_gdim : nat }.
+
+(* write_vars["seen"] / ["geometry_encoding"] restricted to node coordinate variables:
+   (flattened nodes, geometry dimension, partition, what was written), oldest first *)
+Definition wentry := (list Z * nat * (list (list nat) * option (list Z)) * result written)%type.
+
+Definition nats2_eqb := list_eqb (list_eqb Nat.eqb).
+Definition part_eqb (a b : list (list nat) * option (list Z)) : bool :=
+  nats2_eqb (fst a) (fst b) && option_eqb (list_eqb Z.eqb) (snd a) (snd b).
+
+(* _write_node_coordinates for the fields of one cfdm.write call.
+   _already_in_file returns the FIRST variable in the file with equal values; it is reused when its
+   encoding variables span the same geometry dimension and - repaired, handoff/C14-fix3-1.diff -
+   divide the nodes in the same way ([use_partition]); otherwise new variables are written. *)
+Fixpoint write_fields_gen (use_partition : bool) (seen : list wentry) (fs : list wfield)
+  : list (result written) :=
+  match fs with
+  | [] => []
+  | f :: r =>
+      let '(nodes, counts, wr) := key_of (f_a f) (f_ring f) in
+      let fresh := write (f_a f) (f_ring f) in
+      match find (fun e : wentry => let '(n, _, _, _) := e in list_eqb Z.eqb n nodes) seen with
+      | Some (n, gd, part, w) =>
+          if Nat.eqb gd (f_gdim f) && (negb use_partition || part_eqb part (counts, wr))
+          then w :: write_fields_gen use_partition seen r
+          else fresh :: write_fields_gen use_partition (seen ++ [(nodes, f_gdim f, (counts, wr), fresh)]) r
+      | None => fresh :: write_fields_gen use_partition (seen ++ [(nodes, f_gdim f, (counts, wr), fresh)]) r
+      end
+  end.
+
+Definition write_fields := write_fields_gen true [].
+Definition write_fields_old := write_fields_gen false [].
